@@ -261,6 +261,12 @@ func (h *JSONFormatterHook) PostFormat(entry *log.Entry, formatted *bytes.Buffer
 	if err != nil {
 		return err
 	}
+	// "chain" key holds a single marker and the first entry of a chain gets the (unauthenticated) "new" marker below,
+	// so such entry cannot be authenticated as the "end" of chain at the same time: verifier drops "new" marker
+	// before integrity calculation
+	if h.integrityCalculator.isFirstCheck() {
+		delete(parsed, AuditLogChainKey)
+	}
 	logEntryDataBytes, err := convertMapToBytes(parsed)
 	if err != nil {
 		return err
